@@ -55,6 +55,9 @@ Fixpoint walk2 (acts : list act) (observed : list obs) (stop failread wb : bool)
       let inv' := inv ++ invoked_of (o_events o) in
       let ret' := ret ++ returned_of (o_events o) in
       (if (stop' || (fr' && negb wb')) && forallb (fun h => memZ h ret') inv' && negb (o_serve o) then [2%nat] else [])
+      (* 2, the composed form (C10_trigger_returns): after Stop it is enough that no handler whose context is seen done
+         is still running - handlers whose context is not done need not have returned *)
+      ++ (if stop' && forallb (fun h => memZ h ret' || negb (memZ h (o_ctx o))) inv' && negb (o_serve o) then [2%nat] else [])
       ++ walk2 acts' obs' stop' fr' wb' inv' ret'
   | _, _ => []
   end.
